@@ -37,7 +37,7 @@ func init() {
 			"before the tree and commit objects are built; (pack-publish) in PackWriter.save no sidecar file (.idx/.rev/.promisor) is created after the .pack rename; (delete-after-close) createNewObjectPack deletes loose objects only after the pack " +
 			"writer's Close succeeded and RepackObjects deletes old packs only after createNewObjectPack succeeded; (publish-by-rename) every file creation/truncation in storage/filesystem/dotgit targets a temp file that is later renamed, an append-only log, " +
 			"or is listed as a known finding (index, config, shallow, loose refs, packed-refs fallbacks, pack sidecars are written in place); (flushed-before-publish) a bufio.Writer over a file that the function then puts in place is flushed by a non-deferred call on every path before the publishing call; (deferred-error-reaches-result) in dotgit, storage/filesystem and " +
-			"package git an error stored by a deferred call for a handle opened for writing lands in a named result. Not decided: behaviour at each crash prefix, torn writes, fsync.",
+			"package git an error stored by a deferred call for a handle opened for writing lands in a named result; (empty-loose-ref-agreement, shared with C16) every reader of a loose reference file treats the empty file — what a stop between creating and writing it leaves beside the packed value — as absent and falls back to packed-refs. Not decided: behaviour at each crash prefix, torn writes, fsync.",
 		Assumptions: []string{"rename is atomic on the underlying filesystem"},
 		Run:         runC21,
 	})
@@ -398,16 +398,16 @@ func usesRefDerivedPath(info *types.Info, fi *FuncInfo, call *ast.CallExpr) bool
 	return false
 }
 
-func runC16(c *Ctx) {
+// checkEmptyLooseRefAgreement (C16, C21): shared by the compare-and-set property (a refused update leaves the empty
+// placeholder) and the crash property (a stop between creating and writing the loose file leaves it as well).
+func checkEmptyLooseRefAgreement(c *Ctx) {
 	p := c.P
 	pk := p.Pkg(dotgitShort)
 	if pk == nil {
-		c.Unresolved("no-mutation-before-lock", "package "+dotgitShort, 0, "not loaded")
+		c.Unresolved("empty-loose-ref-agreement", "package "+dotgitShort, 0, "not loaded")
 		return
 	}
 	info := pk.TypesInfo
-	oTrunc := p.importedPkg("os").Scope().Lookup("O_TRUNC")
-	lockQ := billyPath + ".Locker.Lock"
 
 	// empty-loose-ref-agreement: a compare-and-set creates the loose file before comparing, so an empty loose file is
 	// a state every reader meets (during an update, and for good after a refused one). Every function that reads a
@@ -469,6 +469,19 @@ func runC16(c *Ctx) {
 		}
 	}
 	c.Check(nReaders >= 3, r0, dotgitShort+":loose-readers", 0, itoa(nReaders)+" readers of loose reference files examined")
+}
+
+func runC16(c *Ctx) {
+	p := c.P
+	pk := p.Pkg(dotgitShort)
+	if pk == nil {
+		c.Unresolved("no-mutation-before-lock", "package "+dotgitShort, 0, "not loaded")
+		return
+	}
+	info := pk.TypesInfo
+	oTrunc := p.importedPkg("os").Scope().Lookup("O_TRUNC")
+	lockQ := billyPath + ".Locker.Lock"
+	checkEmptyLooseRefAgreement(c)
 
 	const r1 = "no-mutation-before-lock"
 	for _, fi := range p.FuncsIn(dotgitShort) {
@@ -787,6 +800,8 @@ func runC21(c *Ctx) {
 	// deferred-error-reaches-result: an operation whose last write failed at Flush/Close must not report success
 	nDef := DeferredErrorsReachResult(c, "deferred-error-reaches-result", dotgitShort, "git", "storage/filesystem")
 	c.Check(nDef >= 5, "deferred-error-reaches-result", "writers", 0, itoa(nDef)+" functions that close or flush a write handle in a deferred call examined")
+	// a stop between creating a loose reference file and writing it leaves an empty file beside the packed value
+	checkEmptyLooseRefAgreement(c)
 	const r1 = "objects-before-refs"
 	if fe := c.MustFunc(r1, "git.(*Remote).fetch"); fe != nil {
 		f := p.FlowOf(fe)
